@@ -201,6 +201,9 @@ var bufBigs = func() []*big.Int {
 	return out
 }()
 
+// offsets whose sum with a length overflows int64 / int32 arithmetic in a careless range check
+var bufHugeOffsets = []float64{math.Inf(1), 1e300, 9223372036854775808, 9223372036854775807, 9223372036854774784, 4611686018427387904, 9007199254740992, 4294967296, 2147483648, 2147483647}
+
 // genVal draws a value for an element of type et: mostly of the right numeric kind, occasionally of the wrong one.
 func genVal(W *core.Track, et int) varg {
 	wrong := W.Draw(20) == 19
@@ -370,6 +373,9 @@ func (m *bmodel) genOp(W *core.Track, step int) *bop {
 		o.a[0] = iarg{omit: true}
 		if W.Draw(2) == 1 {
 			o.a[0] = iarg{f: float64(W.Draw(n+2) - W.Draw(2)), probe: W.Draw(2) == 1}
+			if W.Draw(8) == 7 {
+				o.a[0].f = bufHugeOffsets[W.Draw(len(bufHugeOffsets))]
+			}
 		}
 	case boSetTA:
 		o.v, o.v2 = pickTA(), pickTA()
@@ -377,6 +383,9 @@ func (m *bmodel) genOp(W *core.Track, step int) *bop {
 		o.a[0] = iarg{omit: true}
 		if W.Draw(2) == 1 {
 			o.a[0] = iarg{f: float64(W.Draw(n+2) - W.Draw(2)), probe: W.Draw(2) == 1}
+			if W.Draw(8) == 7 {
+				o.a[0].f = bufHugeOffsets[W.Draw(len(bufHugeOffsets))]
+			}
 		}
 	case boCopyWithin:
 		o.v = pickTA()
